@@ -28,7 +28,7 @@ RULE = (
 REQUIRED = ["history.reports_succeed", "history.live_set", "history.solve", "history.rail_rep", "history.params",
             "history.phases", "history.save", "history.structure", "shown.params", "shown.limits", "shown.phases",
             "detour.extra_add_delete", "detour.replace_kind", "detour.rename_late", "detour.via_intermediate",
-            "detour.mux_input_reparented"]
+            "detour.mux_input_reparented", "detour.move"]
 SIZES = {"quick": 110, "thorough": 900}
 ASSUMPTIONS = ["numeric cells are compared to 1e-9 relative (summation order of sibling currents depends on edge order)",
                "a detour history in which the code rejects a call is outside the quantifier (successful histories) and is "
@@ -102,7 +102,22 @@ def plan_history(rng, T, rate):
         parents_now = [cur[p] for p in c["parents"]]
         has_mux = any(tmpl[x]["kind"] == "PMux" for x in cur)
         detour = rng.random() < rate
-        how = rng.choice(["extra", "replace", "rename_late", "intermediate", "other_params"]) if detour else "direct"
+        how = rng.choice(["extra", "replace", "rename_late", "intermediate", "other_params", "move"]) if detour else "direct"
+        if how == "move":
+            # the component is first hung on the wrong parent, the system is analysed, then the component is moved
+            # (deleted and re-added under its real parent - node index and edge count are the same as before)
+            wrong = [cur[x] for x in cur if tmpl[x]["kind"] not in S.LOADS and cur[x] not in parents_now]
+            if c["kind"] in ("PMux", "Source") or not wrong:
+                how = "direct"
+            else:
+                ops.append(add_op(c, entry(c), [rng.choice(wrong)], ""))
+                ops.append({"op": "analyse", "what": rng.choice(["solve", "params", "save", "phases"])})
+                ops.append({"op": "del_comp", "name": n, "del_childs": True})
+                ops.append(add_op(c, entry(c), parents_now, c.get("rail", "")))
+                ops.append({"op": "analyse", "what": "solve"})
+                cur[n] = n
+                used.append("move")
+                continue
         if how == "extra":
             # an extra component (sometimes with a child) that is deleted again, freeing node indices
             nonload = [cur[x] for x in cur if tmpl[x]["kind"] not in S.LOADS]
@@ -216,6 +231,11 @@ def run(ctx, case):
     _, start, g0, r0 = ops[0]
     E = ns.System(T.get("name", "sys"), hist.make(ns, start), group=g0, rail=r0)
     for k, op in enumerate(ops[1:]):
+        if op["op"] == "analyse":
+            with H.quiet(), H.tmpdir() as dd:
+                H.call(E.save, os.path.join(dd, "i.json")) if op["what"] == "save" else H.call(getattr(E, op["what"]))
+            ctx.ev("history.interleaved_analysis")
+            continue
         st, e = hist.apply(E, op, ns)
         if st == "ok" and rng.random() < 0.3:
             # analyses interleaved with the edits: whatever they cache must be refreshed by later analyses
@@ -303,6 +323,8 @@ def ops_tail(ops, n=14):
             out.append({"op": "System()", "comp": o[1]["name"]})
         else:
             d = {"op": o["op"]}
+            if o["op"] == "analyse":
+                d["what"] = o["what"]
             if "comp" in o:
                 d["comp"] = "%s:%s" % (o["comp"]["kind"], o["comp"]["name"])
             for k in ("name", "parent", "del_childs", "rail"):
